@@ -15,11 +15,14 @@ SHARDS = {"quick": 4, "thorough": 16}
 RULE = ("Every Element/Isotope object exported by cherab.core.atomic.elements is enumerated (not sampled). One case = "
         "(object, identifier kind) carrying every letter-case spelling of that identifier (all 2^len case masks when "
         "len<=8 [quick] / <=16 [thorough], else lower/upper/title/swapcase + 64 deterministic masks); plus one case per "
-        "ordered block of species pairs for ==, != and hash; plus Hypothesis-drawn Line triples. Every case is a real "
+        "ordered block of species pairs for ==, != and hash (each followed by look-ups after an equal copy and a user-defined species "
+        "with the same atomic number were constructed); plus Hypothesis-drawn Line triples incl. other numeric spellings of a transition. Every case is a real "
         "obligation, so all are non-trivial; distinct = distinct (object, identifier kind) / pair blocks / line pairs. "
         "info.lookups counts the individual lookup calls made.")
 ASSUMPTIONS = ["periodic table embedded in vf/oracles/periodic_table.py (118 entries) is correct",
                "the module namespace of cherab.core.atomic.elements is the set of species 'the package defines'"]
+
+REQUIRED_LABELS = ["registry:lookup-after-construction", "lines:equal:other-numeric-spelling"]
 
 ELEMENTS = sorted([(n, getattr(E, n)) for n in dir(E) if type(getattr(E, n)) is Element], key=lambda x: x[0])
 ISOTOPES = sorted([(n, getattr(E, n)) for n in dir(E) if type(getattr(E, n)) is Isotope], key=lambda x: x[0])
@@ -185,16 +188,47 @@ def run_lookup(case, ctx):
             for bn in case["b"]:
                 if BYNAME[bn] is not a:
                     ctx.check(d[BYNAME[bn]] == bn, "dict", "dict key %s clobbered by %s" % (bn, an))
+            # constructing species objects (an equal copy, a user-defined species with the same atomic number) must not disturb
+            # the registry: every identifier of the exported object still finds that very object
+            if type(a) is Element:
+                _user = Element(a.name + "_mix", a.symbol + "x", a.atomic_number, a.atomic_weight + 0.5)
+                for ident in (a.name, a.symbol, a.atomic_number, str(a.atomic_number), a.name.upper(), a.symbol.lower()):
+                    _counts["lookups"] += 1
+                    with ctx.cut("lookup_element"):
+                        got = lookup_element(ident)
+                    ctx.check(got is a, "lookup-after-construction",
+                              lambda: "after constructing a copy and a user-defined element with Z=%d, lookup_element(%r) -> %r (not the exported %s)"
+                              % (a.atomic_number, ident, got, an))
+            else:
+                _user = Isotope(a.name + "_x", a.symbol + "x", a.element, a.mass_number, a.atomic_weight)
+                for args in ((a.name,), (a.symbol,), (a.element, a.mass_number), (a.element.atomic_number, a.mass_number),
+                             (a.element.symbol + str(a.mass_number),)):
+                    _counts["lookups"] += 1
+                    with ctx.cut("lookup_isotope"):
+                        got = lookup_isotope(*args)
+                    ctx.check(got is a, "lookup-after-construction",
+                              lambda: "after constructing a copy and a user-defined isotope, lookup_isotope%r -> %r (not the exported %s)" % (args, got, an))
+            ctx.label("lookup-after-construction")
 
 
 # ---- Lines: hashing/equality agree with the (element, charge, transition) triple
-_TR = [(3, 2), (4, 2), (2, 1), ("3", "2"), ("2s1 3p1 3P4.0", "2s1 3s1 3S1.0"), ("2S1 3P1 3p4.0", "2s1 3s1 3S1.0"), (3, 1), ("a", "b")]
+import numpy as _np  # noqa: E402
+
+# the last four are other numeric spellings of (3, 2) / (4, 2): Python compares them equal to the int tuples, so must Line
+_TR = [(3, 2), (4, 2), (2, 1), ("3", "2"), ("2s1 3p1 3P4.0", "2s1 3s1 3S1.0"), ("2S1 3P1 3p4.0", "2s1 3s1 3S1.0"), (3, 1), ("a", "b"),
+       (3.0, 2.0), (_np.int64(3), _np.int32(2)), (_np.float64(4.0), 2), (True + 2, 2.0)]
 
 
 def line_strategy():
     sp = st.sampled_from([n for n, s in SPECIES])
     one = st.tuples(sp, st.integers(0, 3), st.integers(0, len(_TR) - 1))
-    return st.builds(lambda a, b, same: {"a": list(a), "b": list(a if same else b)}, one, one, st.booleans())
+    def mk(a, b, how):
+        if how == "same":
+            b = a
+        elif how == "respell":          # same species and charge, a transition from the group of numeric spellings of (3,2) / (4,2)
+            b = (a[0], a[1], b[2])
+        return {"a": list(a), "b": list(b)}
+    return st.builds(mk, one, one, st.sampled_from(["same", "other", "respell", "respell"]))
 
 
 def run_line(case, ctx):
@@ -206,6 +240,8 @@ def run_line(case, ctx):
     same = (ka[0] is kb[0]) and ka[1] == kb[1] and tuple(ka[2]) == tuple(kb[2])
     ctx.nt()
     ctx.label("equal" if same else "distinct")
+    if same and repr(ka[2]) != repr(kb[2]):
+        ctx.label("equal:other-numeric-spelling")
     ctx.check((la == lb) == same, "line-eq", "Line%r == Line%r is %r" % (case["a"], case["b"], la == lb))
     ctx.check((la != lb) == (not same), "line-ne", "Line != inconsistent for %r %r" % (case["a"], case["b"]))
     if same:
